@@ -27,14 +27,42 @@ REJECTIONS = (ValueError, NotImplementedError)
 FLAVORS = ["light", "total", "charm", "bottom", "top", "charmlight", "bottomlight", "toplight"]
 
 
+_AST_CACHE = {}
+
+
+def _raised_explicitly(e):
+    """True iff the exception comes from a `raise` statement (in yadism or in the harness' stand-ins for its objects), not from
+    inside a builtin such as list.index or a library call: 'ValueError: 7 is not in list' is an internal lookup failure even
+    though its type is ValueError."""
+    import ast
+    import linecache
+
+    tb = e.__traceback__
+    if tb is None:
+        return True
+    while tb.tb_next is not None:
+        tb = tb.tb_next
+    fname, lineno = tb.tb_frame.f_code.co_filename, tb.tb_lineno
+    if fname not in _AST_CACHE:
+        try:
+            _AST_CACHE[fname] = ast.parse(open(fname).read())
+        except Exception:  # noqa
+            _AST_CACHE[fname] = None
+    tree = _AST_CACHE[fname]
+    if tree is None:
+        return "raise" in linecache.getline(fname, lineno)
+    for node in ast.walk(tree):
+        if isinstance(node, ast.Raise) and node.lineno <= lineno <= getattr(node, "end_lineno", node.lineno):
+            return True
+    return False
+
+
 def is_clear_rejection(e):
     if isinstance(e, KeyError) or isinstance(e, (IndexError, AttributeError, TypeError, ImportError, ZeroDivisionError, NameError,
                                                    AssertionError)):
         return False
-    if isinstance(e, REJECTIONS):
-        return True
-    if isinstance(e, RuntimeError) and str(e):
-        return True
+    if isinstance(e, REJECTIONS) or (isinstance(e, RuntimeError) and str(e)):
+        return _raised_explicitly(e)
     return False
 
 
@@ -264,6 +292,17 @@ def replay_import(args):
     return c03.replay_import(args)
 
 
+def _replay_compute(args, fn):
+    try:
+        with cm.fixed_nf():
+            fn(dict(args["cell"]))
+    except Exception as e:  # noqa
+        if is_clear_rejection(e):
+            return False, f"clean rejection {e!r}"
+        return True, f"{args['cell']}: {type(e).__name__}: {str(e)[:150]}"
+    return False, "computes"
+
+
 REPLAYERS = {"dispatch": replay_dispatch, "part": replay_part, "kin": replay_kin, "scrub": replay_scrub, "crosshair": replay_crosshair,
              "import": replay_import}
 
@@ -329,6 +368,53 @@ def run(chk, only=None):
                     chk.report(dispatch_key(cell, e), f"{cname}: internal {type(e).__name__}: {str(e)[:100]}", "dispatch",
                                dict(cell={k: (list(v) if isinstance(v, tuple) else v) for k, v in cell.items()}, Q2=float(p.assign.get("Q2", 50.0))))
         chk.section("dispatch", cells=len(cells), clean_rejections=nrej, distinct_kernel_orders=len(sigs))
+    # ---- A2: the real compute_local (orders bookkeeping, scale-variation keys) for every PTODIS x PTO(evolution) pair ----
+    if only in (None, "compute"):
+        from yadism.esf import esf as esfmod2
+        from yadism.esf import scale_variations as svmod
+
+        def compute_cell(cell):
+            cc = cm.make_coupling(cm.ew_params(values={}), cell["proc"], 11 if cell["proc"] != "CC" else 12)
+            sv = svmod.ScaleVariations(order=cell["pto"], interpolator=None, activate_ren=cell["ren"], activate_fact=cell["fact"])
+            sv.compute_raw = lambda nf: [sv.operators.setdefault((l, nf), np.zeros((3, 3))) for d in sv.raw_labels for l in d]
+            cfg = cm.make_configs(cc, pto=cell["pto"], pto_evol=cell["pto_evol"], scheme=cell["sch"], nf_ff=cell["nf"], ZMq=tuple(cell["zm"]),
+                                  threshold=cell["nf"], sv_manager=sv, interpolator=cm.StubInterpolator([1e-3, 0.1, 1.0], [None, None, None]))
+            esf_ = cm.make_esf(cfg, f"{cell['kind']}_{cell['flav']}", 0.1, cell.get("Q2", 50.0))
+            fake_conv = type("FakeConv", (), {"convolve_vector": staticmethod(lambda rsl, interp, chi: (np.zeros(3), np.zeros(3)))})
+            with npshim.patched((esfmod2, "conv", fake_conv)):
+                esf_.compute_local()
+            res = esf_.res
+            want = svmod.build_orders(cell["pto"])
+            missing = [o for o in want if o not in res.orders]
+            if missing:
+                raise KeyError(f"orders {missing[:3]} missing from the result of a PTODIS={cell['pto']} run")
+            return sorted(res.orders)
+
+        REPLAYERS["compute"] = lambda args: _replay_compute(args, compute_cell)
+        chk.replayers["compute"] = REPLAYERS["compute"]
+        ccells = []
+        for kind, flav, proc, (sch, nf, zm), pto, pto_evol, (ren, fact) in itertools.product(
+                ["F2", "FL", "F3", "g1"], ["light", "total", "charm"], ["NC", "CC"],
+                [("ZM-VFNS", 4, (1, 1, 1)), ("FFNS", 3, (0, 0, 0)), ("FFN0", 3, (0, 0, 0))], [0, 1, 2, 3], [0, 1, 2, 3], [(True, True), (False, True)]):
+            if chk.tier == "quick" and hash((kind, flav, proc, sch, pto, pto_evol, ren)) % 9:
+                continue
+            ccells.append(dict(kind=kind, flav=flav, proc=proc, sch=sch, nf=nf, zm=zm, pto=pto, pto_evol=pto_evol, ren=ren, fact=fact))
+        ncomp = 0
+        for cell in ccells:
+            chk.obligations += 1
+            chk.evaluations += 1
+            try:
+                with cm.fixed_nf():
+                    compute_cell(cell)
+                chk.discharged += 1
+                ncomp += 1
+            except Exception as e:  # noqa
+                if is_clear_rejection(e):
+                    chk.discharged += 1
+                    continue
+                chk.report(f"compute:{type(e).__name__}:{cell['kind']}:{cell['proc']}:pto{cell['pto']}:evol{cell['pto_evol']}",
+                           f"compute_local({cell}): internal {type(e).__name__}: {str(e)[:100]}", "compute", dict(cell={k: (list(v) if isinstance(v, tuple) else v) for k, v in cell.items()}))
+        chk.section("compute_local", cells=len(ccells), computed=ncomp)
     # ---- B ----
     if only in (None, "parts"):
         items, _ = c03.class_items(chk.tier)
